@@ -1,0 +1,10 @@
+from __future__ import annotations
+
+from contextvars import ContextVar
+
+# A token for the delivery which is being processed in the current context: set by the runner for
+# every message it hands to the processor, seen by everything which runs on behalf of that
+# delivery (the actor, its dependencies). A message id is not enough to tell deliveries apart:
+# a rescheduled or retried message can be delivered again while the previous delivery is still
+# being finished.
+_CurrentDelivery: ContextVar[object | None] = ContextVar("_CurrentDelivery", default=None)
